@@ -32,7 +32,8 @@ def run(ctx):
     ctx.exhaustive = True
     # 2. behaviours: every run of <= 3 events (all single deliveries after one or two key exchanges) + random walks
     #    (quick: 4 of the 7 signature encodings and 2 of the 3 key encodings in the BFS part; the walks use all)
-    red = {} if not ctx.quick() else {"SigForms": '{"full", "nov", "rflip", "empty"}', "PkForms": '{"comp", "bad"}'}
+    red = {} if not ctx.quick() else {"SigForms": '{"full", "nov", "rflip", "empty"}', "PkForms": '{"comp", "bad"}',
+                                      "Suites": '{"none", "tls:chacha", "ecdhe:aes128"}'}
     bs = ctx.behaviours("net", "Gen_Handshake", "Gen_Handshake.cfg",
                         constants=dict({"MaxOps": 3, "Depth": 3, "Sessions": "{1, 2}"}, **red), timeout=900)
     # every message the attacker can deliver on a connection opened by replaying a's recorded SecureRequest
